@@ -5,18 +5,20 @@
    contents must render as one terminal cell width.  Multiple runes are allowed
    (combining chars, etc)".  Nothing in the registry, in SetDecorationNamed, in
    auto.Wrap or in the render guard looks INSIDE a field: the only observation
-   is the struct comparison with EmptyDecoration (the zero value: every field
-   ""), and the emitter (emit.go, commonTemplateLine) only concatenates and
+   is the struct comparison with EmptyDecoration (the zero value: every string
+   field "", every bool field false), and the emitter (emit.go, commonTemplateLine) only concatenates and
    repeats the strings.  [abstract] is that observation; [template_line] is
    commonTemplateLine for a boxed decoration, without the end-of-line string. *)
 From Tab Require Export Model.Auto.
 
-Record cdecor := mkCD { cd_fields : list bytes }.   (* the string fields, in the struct's order *)
+Record cdecor := mkCD {
+  cd_flags : list bool;      (* the bool fields (the unexported isBoxless that NoBox() sets), in the struct's order *)
+  cd_fields : list bytes }.  (* the string fields, in the struct's order *)
 
 Definition field_empty (f : bytes) : bool := match f with [] => true | _ => false end.
 
 (* d == decoration.EmptyDecoration *)
-Definition cd_is_empty (d : cdecor) : bool := forallb field_empty (cd_fields d).
+Definition cd_is_empty (d : cdecor) : bool := forallb negb (cd_flags d) && forallb field_empty (cd_fields d).
 
 (* what the registry, the lookup and the guard see of a concrete value (id: which value it is) *)
 Definition abstract (id : N) (d : cdecor) : decoration :=
